@@ -39,7 +39,7 @@ def shards(tier):
 
 def run(ctx):
     hyp_run(ctx, 'c09.machine', case_strategy(True), body(ctx, True, 'c09.machine'),
-            ctx.pick(150, 3000))
+            ctx.pick(150, 15000))
 
 
 def replay(ctx, check, case):
